@@ -111,8 +111,8 @@ def bucketName (c : RefFlow.Cond) : Str := if c.name.isEmpty then c.value else c
 def bucketNameOk (nm : Str) : Bool :=
   nm.isEmpty || !(decide (nm.take 7 = "Bucket ".toList) || decide (nm.head? = some '#'))
 
-/-- the edges leaving a row are read with one meaning only: an action row is left unconditionally;
-a condition on an edge leaving a `wait_for_response` row names no variable (the operand stays the
+/-- the edges leaving a row are read with one meaning only: a condition on an edge leaving an action
+row is not the reserved "no response" and names no category; a condition on an edge leaving a `wait_for_response` row names no variable (the operand stays the
 reply) and no category; a condition leaving a split row is not the reserved "no response" and names
 no category; a bucket of a `split_random` row is not given one of the generated bucket names; the
 edges leaving a fixed-outcome row are unrestricted (an outcome word that does not exist is an error
@@ -126,6 +126,7 @@ def edgeOk (rows : List CRow) (e : RefFlow.OutEdge) : Bool :=
   | some .enterFlow => true
   | some .webhook => true
   | some .airtime => true
+  | some .action => e.cond.blank || (!isNR e.cond && e.cond.name.isEmpty)
   | _ => e.cond.blank
 
 /-- the test a conditional edge leaving a row of kind `k` stands for -/
@@ -141,9 +142,24 @@ def testsOf (k : RefFlow.Kind) (es : List RefFlow.OutEdge) : List RefFlow.OutEdg
 def distinctTests (rows : List CRow) (out : List RefFlow.OutEdge) : Bool :=
   (List.range rows.length).all fun j =>
     match rows[j]? with
-    | some c => !switchTypes.contains c.row.type ||
+    | some c => !(switchTypes.contains c.row.type || decide (kindOf c.row.type = .action)) ||
       decide (((testsOf (kindOf c.row.type) (out.filter (·.src = j))).map
         (fun e => refTest (kindOf c.row.type) e.cond)).Nodup)
+    | none => true
+
+/-- the variable the conditional edges leaving an action row decide on (empty: the reply) -/
+def implVar (es : List RefFlow.OutEdge) : Str :=
+  (((es.filter (fun e => !e.cond.blank)).head?).map (·.cond.var)).getD []
+
+/-- the conditional edges leaving one action row name the same variable (or none of them names one):
+the router the compiler puts behind the row's node decides on the variable of the edge added last,
+and waits for a reply iff the edge added first names none -/
+def sameVars (rows : List CRow) (out : List RefFlow.OutEdge) : Bool :=
+  (List.range rows.length).all fun j =>
+    match rows[j]? with
+    | some c => !decide (kindOf c.row.type = .action) ||
+      ((out.filter (·.src = j)).filter (fun e => !e.cond.blank)).all
+        (fun e => decide (e.cond.var = implVar (out.filter (·.src = j))))
     | none => true
 
 /-- fragment F2: action rows and deciding rows (`wait_for_response` with or without timeout,
@@ -154,7 +170,7 @@ are read off the edges the reference interpretation resolves -/
 def inFragment (rows : List CRow) : Bool :=
   rows.all rowOk &&
   match RefFlow.pass1 (rows.map toRRow) with
-  | .ok out => out.all (edgeOk rows) && distinctTests rows out
+  | .ok out => out.all (edgeOk rows) && distinctTests rows out && sameVars rows out
   | .error _ => true
 
 end Rpft.CoreSheet
